@@ -78,6 +78,30 @@ func sumUncapped(vs []int) int {
 	return sum
 }
 
+func pairsRangeInt(xs []int) int {
+	s := 0
+	for i := range len(xs) - 1 {
+		s += xs[i+1] - xs[i]
+	}
+	return s
+}
+
+func pairsRangeIntBad(xs []int) int {
+	s := 0
+	for i := range len(xs) {
+		s += xs[i+1] - xs[i]
+	}
+	return s
+}
+
+func pairsClassic(xs []int) int {
+	s := 0
+	for i := 0; i < len(xs)-1; i++ {
+		s += xs[i+1] - xs[i]
+	}
+	return s
+}
+
 func ramp(x, lo, hi float64) int {
 	if x >= hi {
 		return 255
@@ -169,5 +193,49 @@ func TestRamp(t *testing.T) {
 	}
 	if !found {
 		t.Errorf("the n/(X-Y) rule must record its hypothesis (hi - lo > 0)")
+	}
+}
+
+// TestIndexInLoops: every index of the function is proved within [0, len-1] exactly for the
+// well-formed loops, whatever the loop form (classic three-clause or rotated range-over-int).
+func TestIndexInLoops(t *testing.T) {
+	p := testutil.Load(t, src)
+	for name, want := range map[string]bool{"pairsRangeInt": true, "pairsClassic": true, "pairsRangeIntBad": false} {
+		f := p.Func(name)
+		an := ranges.New(f)
+		all, n := true, 0
+		for _, b := range f.Blocks {
+			for _, ins := range b.Instrs {
+				ia, ok := ins.(*ssa.IndexAddr)
+				if !ok {
+					continue
+				}
+				n++
+				var ln ssa.Value
+				for _, b2 := range f.Blocks {
+					for _, i2 := range b2.Instrs {
+						if c, ok := i2.(*ssa.Call); ok && ln == nil {
+							if bi, ok := c.Call.Value.(*ssa.Builtin); ok && bi.Name() == "len" {
+								ln = c
+							}
+						}
+					}
+				}
+				lav := an.Eval(ln, nil)
+				if lav.Exact == nil {
+					t.Fatalf("%s: len not symbolic", name)
+				}
+				av := an.Eval(ia.Index, ranges.FactsAt(b, nil))
+				if !(ranges.ProvesGE(av, ranges.Konst(0)) && ranges.ProvesLE(av, lav.Exact.Shift(-1))) {
+					all = false
+				}
+			}
+		}
+		if n != 2 {
+			t.Fatalf("%s: %d index operations, want 2", name, n)
+		}
+		if all != want {
+			t.Errorf("%s: all indexes proved in range = %v, want %v", name, all, want)
+		}
 	}
 }
